@@ -71,6 +71,30 @@ static void add_default_include_paths(char *argv0) {
   // -idirafter directories are searched after the standard ones.
   for (int i = 0; i < idirafter.len; i++)
     strarray_push(&include_paths, idirafter.data[i]);
+
+  // A directory is searched once: at its place among the standard and
+  // -idirafter directories if it is one of them, otherwise where -I
+  // names it first. This is what makes an #include_next chain go
+  // through each directory once.
+  StringArray all = include_paths;
+  int nuser = all.len - 4 - idirafter.len;
+  include_paths = (StringArray){};
+
+  for (int i = 0; i < all.len; i++) {
+    char *dir = realpath(all.data[i], NULL);
+    bool dup = false;
+    bool is_std = (nuser <= i);
+    for (int j = 0; j < all.len && !dup; j++) {
+      bool is_std2 = (nuser <= j);
+      bool wins = (is_std2 && !is_std) || (j < i && !(is_std && !is_std2));
+      if (j == i || !wins)
+        continue;
+      char *dir2 = realpath(all.data[j], NULL);
+      dup = dir && dir2 && !strcmp(dir, dir2);
+    }
+    if (!dup)
+      strarray_push(&include_paths, all.data[i]);
+  }
 }
 
 static void define(char *str) {
